@@ -117,10 +117,17 @@ def skip_attrs(tk):
     while True:
         p = tk.peek()
         if p in ATTRS: tk.next()
-        elif p in ('align', 'dereferenceable', 'dereferenceable_or_null') :
+        elif p in ('align', 'dereferenceable', 'dereferenceable_or_null', 'byval', 'sret', 'byref', 'inalloca', 'preallocated', 'elementtype'):
             tk.next()
-            if tk.peek() == '(': tk.next(); tk.next(); tk.expect(')')
-            else: tk.next()
+            if tk.peek() == '(':
+                depth = 0
+                while True:
+                    x = tk.next()
+                    if x == '(': depth += 1
+                    elif x == ')':
+                        depth -= 1
+                        if depth == 0: break
+            elif p == 'align': tk.next()
         elif p is not None and p.startswith('#'): tk.next(); tk.next() if False else None
         else: break
 
@@ -521,6 +528,7 @@ class Eval:
         s.solver_checks = 0
         s.loop_inv = {}; s.loop_havoc = {}
         s.array_objs = {}
+        s.zeroed = set(); s.heap_objs = []
         s.static_reads = []
         s.shadows = {}               # ast id of a wrap-free integer value -> (value, real-valued shadow)
         s.branch_preds = {}          # symbolic branch conditions met during evaluation (for automatic case splits)
@@ -651,6 +659,10 @@ class Eval:
     def load_initial(s, obj, path, ty, st):
         rty = resolve(ty, s.mod)
         if s.derefs is None: s.derefs = {}
+        if obj in s.zeroed:
+            if rty.kind == 'ptr': return P.null()
+            if rty.kind == 'fp': return RealVal(0)
+            if rty.kind == 'int': return BoolVal(False) if rty.bits == 1 else BitVecVal(0, rty.bits)
         root, chain = s.root_of(obj)
         chain = chain + [list(path)]
         if root.startswith('g:'):
@@ -1290,6 +1302,8 @@ class Eval:
         if name.startswith('llvm.memset'):
             ptr, val = args[0], args[1]
             t = ptr.single() if isinstance(ptr, P) else Ellipsis
+            if t is not Ellipsis and t is not None and t[0] not in s.array_objs and conc(val) == 0 and t[0].startswith('a:'):
+                s.zeroed.add(t[0]); return None           # zero-initialised local struct: unwritten fields read as 0 / NULL
             if t is Ellipsis or t is None or t[0] not in s.array_objs or conc(val) != 0:
                 raise Unsupported('memset other than zeroing a whole local array')
             ety, n = s.array_objs[t[0]]
@@ -1438,6 +1452,23 @@ class Eval:
                 full.append(P.null())
         rv, after = s.run(fname, full, st)
         return Result(s, rv, after, slot)
+
+
+def heap_prims():
+    """malloc / calloc / free as custom primitives: fresh objects, per-object free counters (st.cnt[('free', obj)])"""
+    def malloc(ev, st, args, ins):
+        obj = 'm:%d' % next(ev.fresh)
+        ev.heap_objs.append(obj)
+        st.cnt[('alloc', obj)] = z3.IntVal(1)
+        return P.to(obj, (0,))
+    def free(ev, st, args, ins):
+        p = args[0]
+        if not isinstance(p, P): raise Unsupported('free of non-pointer')
+        for g, t in p.alts:
+            if t is None or is_false(g): continue
+            k = ('free', t[0]); st.cnt[k] = st.cnt.get(k, z3.IntVal(0)) + If(g, 1, 0)
+        return None
+    return {'malloc': Prim(kind='custom', post=malloc), 'calloc': Prim(kind='custom', post=malloc), 'free': Prim(kind='custom', post=free)}
 
 
 class Result:
